@@ -885,10 +885,10 @@ def level_mask(inp, H, W, full=False):
         src = np.array(mk, copy=True)
         return {"src": src, "x": _mk(aa.Mask2D, mask=src, pixel_scales=(ps, ps)), "d": None}
 
-    reads = [("circular_radius", lambda o: o.circular_radius), ("is_circular", lambda o: o.is_circular),
-             ("mask_centre", lambda o: o.mask_centre), ("zoom_region", lambda o: o.zoom_region)]
+    reads = [("circular_radius", lambda o: o.circular_radius), ("mask_centre", lambda o: o.mask_centre)]
     if full:
-        reads += [("derive_mask.edge", lambda o: o.derive_mask.edge), ("derive_indexes.native_for_slim", lambda o: o.derive_indexes.native_for_slim),
+        reads += [("is_circular", lambda o: o.is_circular), ("zoom_region", lambda o: o.zoom_region),
+                  ("derive_mask.edge", lambda o: o.derive_mask.edge), ("derive_indexes.native_for_slim", lambda o: o.derive_indexes.native_for_slim),
                   ("derive_grid.unmasked", lambda o: o.derive_grid.unmasked), ("zoom_mask_unmasked", lambda o: o.zoom_mask_unmasked)]
     ops = [("noop", "read", lambda G: None)]
     for who in ("x", "d"):
@@ -1488,7 +1488,7 @@ def cases(tier):
         out += _hist_cases("mask", {"H": 3, "W": 3, "family": "sym4"}, 2)
         out += _hist_cases("imaging", {"mask_id": "4x4_inner"}, 2)
         out += _hist_cases("inversion", {"mask_id": "5x5_inner", "w_tilde": 0}, 2)
-        out += _hist_cases("inversion", {"mask_id": "5x5_inner_L", "w_tilde": 1}, 2)
+        out += _hist_cases("inversion", {"mask_id": "5x5_inner_L", "w_tilde": 1}, 1)
     else:
         out += _hist_cases("vis", {"n": 3, "full": True}, 2)
         out += _hist_cases("vis", {"n": 2}, 3)
@@ -1506,7 +1506,8 @@ def cases(tier):
         for wt, mid in ((0, "5x5_inner"), (1, "5x5_inner"), (0, "5x5_inner_L"), (1, "5x5_inner_L")):
             out += _hist_cases("inversion", {"mask_id": mid, "w_tilde": wt, "full": True}, 2)
     out.append(("case_hist_imaging", {"mask_id": "4x4_inner", "k": 1, "snr": True, "op0": "x.signal_to_noise_map"}))
-    out.append(("case_hist_imaging", {"mask_id": "4x4_inner", "k": 2, "snr": True, "op0": "d=x.apply_mask(m2)"}))
+    if not q:
+        out.append(("case_hist_imaging", {"mask_id": "4x4_inner", "k": 2, "snr": True, "op0": "d=x.apply_mask(m2)"}))
     return out
 
 
